@@ -205,7 +205,7 @@ SINGLE_LINE_FORMS = {"line", "rsdoc", "rsinner", "hash", "sqlline", "trail", "ht
 END_SPELLINGS = ["</block>", "</ block >", "< /block>", "</block >"]
 
 
-def render(items, ext, variant=0, crlf=False, multibyte=False, tag_attrs=None, bare=False, endsp=None):
+def render(items, ext, variant=0, crlf=False, multibyte=False, tag_attrs=None, bare=False, endsp=None, mixed_md=False):
     """-> dict(name, text, starts=[{name,line,col,item,pos}], comments={item: (start_byte, end_byte)},
                lines=[...])  Items: [{k: code|str|cmt, tags: [...]}]"""
     fl = forms(ext)
@@ -216,10 +216,8 @@ def render(items, ext, variant=0, crlf=False, multibyte=False, tag_attrs=None, b
     sidx = 0
     note = "nöte" if multibyte else "note"
     md = ext in ("md", "markdown")
-    # Markdown pairs link-reference comments and HTML comments on separate stacks (finding M1):
-    # keep every file homogeneous in that respect.
-    if md:
-        fl = ["mdparen", "mdquote"] if variant % 2 == 0 else ["xml", "mxml"]
+    # (Markdown used to pair link-reference comments and HTML comments on separate stacks -- finding M1,
+    # repaired in /repo -- so Markdown files now mix all four comment forms freely.)
     for n, it in enumerate(items, 1):
         if it["k"] == "code":
             out_lines.append(code_line(ext, n))
@@ -231,6 +229,9 @@ def render(items, ext, variant=0, crlf=False, multibyte=False, tag_attrs=None, b
                 out_lines.append("")
         else:
             form = fl[(variant + n) % len(fl)]
+            if md and it.get("ck") in ("a", "b") and mixed_md:
+                # Markdown file mixing the two comment kinds: a = [//]: # link comments, b = HTML comments
+                form = (["mdparen", "mdquote"] if it["ck"] == "a" else ["xml", "mxml"])[(variant + n) % 2]
             tags = it["tags"]
             texts = []
             for p, t in enumerate(tags, 1):
